@@ -25,13 +25,13 @@ INVARIANTS = [
     "TypeOK", "C14_RefitIsFresh", "C14_AnswersFromLastFit", "C14_ModelUsableAfterRotFit",
     "C05_TransformLabelsFromArgument", "C04_TrainingTransformIsScores", "C11_SortedExactlyOnce",
     "C11_TransformOrderMatchesStore", "C18_EagerResultsAreSorted", "C12_LazyFitComputesNothing",
-    "C12_DeferredResultsStayLazy", "C12_ComputeMakesEager", "C20_SameSeedSameResample",
+    "C12_DeferredResultsStayLazy", "C12_ComputeMakesEager", "C12_InputNeverMaterialised", "C20_SameSeedSameResample",
 ]
 PROPERTIES = ["C14_QueriesArePure", "C14_TransformWritesOnlyBookkeeping", "C14_RotBootDoNotTouchModel",
               "C18_RefitResorts", "C13_SnapshotFaithful"]
 DEVIATIONS = ["FitAppends", "RefitKeepsSorted", "TransformLabelsFromFit", "QueryReadsTransformCoords",
               "ComputeSortsAgain", "DeserializeDropsSorted", "RotRenamesShared", "RotTransformUnsorted",
-              "BootIgnoresSeed"]
+              "BootIgnoresSeed", "ComputeLoadsInput"]
 
 
 def cfg_lines(cap, eager, daskin, checknans, dev=None, datasets="DS3", nitems="NI3", maxsnaps=1,
@@ -369,6 +369,9 @@ class World:
             lazy = [isinstance(model.data[k].data, dask.array.Array) for k in allowed]
             out["lazy"] = any(lazy)
             out["lazy_all"] = all(lazy) if lazy else False
+            inputs = [k for k in model.data.keys() if str(k).startswith("input_data")]
+            if inputs:
+                out["inputLazy"] = all(isinstance(model.data[k].data, dask.array.Array) for k in inputs)
             if hasattr(model, "sorted"):
                 out["sorted"] = bool(model.sorted)
         return out
@@ -570,6 +573,11 @@ class Replayer:
 
     def touch_metrics(self, obj):
         """every metric accessor is a query: call those the class has (their purity is judged by the checks that follow)"""
+        for name, kw in (("scores", dict(normalized=True)), ("components", dict(normalized=True)), ("scores", dict(normalized=False))):
+            try:                   # getters with the other normalisation first: they must not leave anything behind
+                getattr(obj, name)(**kw)
+            except Exception:  # noqa
+                pass
         for name in self.METRICS:
             fn = getattr(obj, name, None)
             if callable(fn):
@@ -641,7 +649,10 @@ class Replayer:
         sd = seedmap[a["seed"]]
         nb = 3
         _verif.reset()
-        bs = BOOT(n_bootstraps=nb, seed=sd)
+        # one bootstrapper object per seed and path: a later fit of the same object must draw what a fresh one draws
+        if not hasattr(self, "boots"):
+            self.boots = {}
+        bs = self.boots.setdefault(a["seed"], BOOT(n_bootstraps=nb, seed=sd))
         self.call("C20", "BootFit", "bootstrapper.fit(model)", lambda: bs.fit(self.model))
         ev = [e for e in _verif.events() if e["event"] == "boot_resample"]
         n = len(self.sample_labels(w.ds_mem[a["base"]]))
@@ -671,6 +682,9 @@ class Replayer:
             if "namesOK" in pm:
                 self.D(pm["namesOK"] == m["namesOK"], "C14", "C14_ModelUsableAfterRotFit",
                        f"after {a['kind']}: model container entries renamed / model no longer serialisable")
+                if w.daskin and m.get("hasInput") and "inputLazy" in pm:
+                    self.D(pm["inputLazy"] == m["inputLazy"], "C12", "C12_InputNeverMaterialised",
+                           f"after {a['kind']}: the input data stored in the model is dask backed: {pm['inputLazy']}, specification says {m['inputLazy']}")
                 if w.daskin:
                     self.D(pm["lazy"] == m["lazy"], "C12", "C12_ComputeMakesEager",
                            f"after {a['kind']}: results lazy={pm['lazy']} but specification says lazy={m['lazy']}")
